@@ -503,6 +503,92 @@ impl Seqs {
     }
 }
 
+// ---- numeric literals directly next to operators (no blanks): the lexer must end the literal ----
+
+fn adjacent_pool() -> Vec<(&'static str, V)> {
+    vec![
+        ("1", V::Int(1)),
+        ("100", V::Int(100)),
+        ("0x1e", V::Int(30)),
+        ("0X1E", V::Int(30)),
+        ("0xfe", V::Int(254)),
+        ("7u", V::UInt(7)),
+        ("0xeu", V::UInt(14)),
+        ("0x1eU", V::UInt(30)),
+        ("1.5", V::Dbl(1.5)),
+        ("0.5", V::Dbl(0.5)),
+        ("1e3", V::Dbl(1000.0)),
+        ("1E3", V::Dbl(1000.0)),
+        ("1.5e-3", V::Dbl(0.0015)),
+        ("2e+2", V::Dbl(200.0)),
+        ("9223372036854775807", V::Int(i64::MAX)),
+        ("18446744073709551615u", V::UInt(u64::MAX)),
+    ]
+}
+const ADJ_OPS: [&str; 11] = ["+", "-", "*", "/", "%", "==", "!=", "<", "<=", ">", ">="];
+
+fn run_adjacent(idx: u64, acc: &mut Acc) {
+    use crate::refmodel::{self, Arith, CmpRes, Exp};
+    let pool = adjacent_pool();
+    let n = pool.len() as u64;
+    let d = unrank(idx, &[n, n, ADJ_OPS.len() as u64]);
+    let (sa, va) = &pool[d[0] as usize];
+    let (sb, vb) = &pool[d[1] as usize];
+    let op = ADJ_OPS[d[2] as usize];
+    let exp: Exp = match op {
+        "+" => refmodel::arith(Arith::Add, va, vb),
+        "-" => refmodel::arith(Arith::Sub, va, vb),
+        "*" => refmodel::arith(Arith::Mul, va, vb),
+        "/" => refmodel::arith(Arith::Div, va, vb),
+        "%" => refmodel::arith(Arith::Rem, va, vb),
+        "==" | "!=" => match refmodel::eq(va, vb) {
+            Some(e) => Exp::Val(V::Bool(if op == "==" { e } else { !e })),
+            None => Exp::Unspec,
+        },
+        _ => match refmodel::cmp(va, vb) {
+            CmpRes::Ord(o) => {
+                use std::cmp::Ordering::*;
+                Exp::Val(V::Bool(match op {
+                    "<" => o == Less,
+                    "<=" => o != Greater,
+                    ">" => o == Greater,
+                    _ => o != Less,
+                }))
+            }
+            _ => Exp::Unspec,
+        },
+    };
+    for (layout, src) in [("no-blanks", format!("{}{}{}", sa, op, sb)), ("blanks", format!("{} {} {}", sa, op, sb)), ("newlines", format!("{}\n{}\n{}", sa, op, sb))] {
+        let got = real::eval(&src, &[]);
+        acc.eval();
+        acc.class(&got.class());
+        let ok = match (&exp, &got) {
+            (_, Outcome::Panic { .. }) => false,
+            (Exp::Unspec, o) => !o.is_compile_fail(),
+            (Exp::Fail, Outcome::Fail(..)) => true,
+            (Exp::Val(v), o) => matches!(o.value(), Some(g) if g.same(v)),
+            _ => false,
+        };
+        if !ok {
+            acc.violation(
+                &format!("numeric-literal-next-to-operator [{}] {}", layout, if got.is_compile_fail() { "rejected" } else { "wrong-value" }),
+                json!({"src": src}),
+                exp.show(),
+                got.show(),
+            );
+        }
+    }
+    acc.nontrivial(&("adjacent", idx));
+    if acc.wants_sample() {
+        acc.sample(json!({"src": format!("{}{}{}", sa, op, sb), "expected": exp.show()}));
+    }
+}
+
+fn adjacent_size() -> u64 {
+    let n = adjacent_pool().len() as u64;
+    n * n * ADJ_OPS.len() as u64
+}
+
 pub fn replay_families(t: Tier) -> Vec<Family<'static>> {
     let q: &'static Seqs = Box::leak(Box::new(Seqs::new()));
     let i: &'static Ints = Box::leak(Box::new(Ints::new(t)));
@@ -516,12 +602,13 @@ pub fn replay_families(t: Tier) -> Vec<Family<'static>> {
         Family::new("bytes", Bytes.size(), move |x, a| Bytes.run(x, a)),
         Family::new("rejects", r.size(), move |x, a| r.run(x, a)),
         Family::new("sequences", q.size(), move |x, a| q.run(x, a)),
+        Family::new("adjacent-operators", adjacent_size(), run_adjacent),
     ]
 }
 
 pub fn run(t: Tier) -> i32 {
     let mut rep = Report::new(ID, t, "exploration");
-    rep.rule = "ints/uints: every +-2^k, +-2^k+-1 (k<=63/64) and boundary value in decimal and four hexadecimal spellings, u/U suffixes, negatives through unary minus, plus the first out-of-range magnitudes; doubles: sign x finite exponents (all 2047 in thorough) x 10 mantissa patterns x up to 7 spellings (shortest and 17-digit scientific, E/e, explicit +, plain decimal, leading/trailing dot); strings: all strings up to the length bound over 11 characters (quotes, backslash, LF, TAB, NUL, brace, 2/3/4-byte UTF-8) with every applicable escape form per character, both quotes, plain/f/r prefixes; bytes: all 256 single bytes in every spelling and all pairs over 6 bytes; rejections: every proper prefix of every escape form, surrogates, code points above 10FFFF, malformed octal; sequences: all ordered pairs and triples of 24 literal spellings (int/uint extremes in decimal and hex, the minimum int with and without a blank or parentheses after the minus, doubles, strings, bytes, raw strings, a surrogate escape) inside one list literal - a sequence with a rejected literal must be rejected as a whole, otherwise it is the list of the spelled values. The generator knows
+    rep.rule = "ints/uints: every +-2^k, +-2^k+-1 (k<=63/64) and boundary value in decimal and four hexadecimal spellings, u/U suffixes, negatives through unary minus, plus the first out-of-range magnitudes; doubles: sign x finite exponents (all 2047 in thorough) x 10 mantissa patterns x up to 7 spellings (shortest and 17-digit scientific, E/e, explicit +, plain decimal, leading/trailing dot); strings: all strings up to the length bound over 11 characters (quotes, backslash, LF, TAB, NUL, brace, 2/3/4-byte UTF-8) with every applicable escape form per character, both quotes, plain/f/r prefixes; bytes: all 256 single bytes in every spelling and all pairs over 6 bytes; rejections: every proper prefix of every escape form, surrogates, code points above 10FFFF, malformed octal; sequences: all ordered pairs and triples of 24 literal spellings (int/uint extremes in decimal and hex, the minimum int with and without a blank or parentheses after the minus, doubles, strings, bytes, raw strings, a surrogate escape) inside one list literal - a sequence with a rejected literal must be rejected as a whole, otherwise it is the list of the spelled values; adjacent-operators: all ordered pairs of 16 numeric spellings (decimal, hexadecimal ending in e, u-suffixed, exponent forms) joined by each of 11 operators without blanks, with blanks and with newlines - the literal must end where the operator starts. The generator knows
  the value it spelled; the result must equal it bit for bit (or be a syntax error for the rejection set). Every case is non-trivial; distinct by source text".to_string();
     for f in replay_families(t) {
         rep.run_family(f);
